@@ -324,6 +324,7 @@ def check_subdistribution(ctx):
     q = ps[1]
     loops = [n for n in cfg.nodes if n.kind == "for"]
     proj_loops = [n for n in loops if "distribution_dict" in norm(n.ast.iter)]
+    items_loop = bool(proj_loops) and isinstance(proj_loops[0].ast.iter, ast.Call) and norm(proj_loops[0].ast.iter) == "self.distribution_dict.items()" and isinstance(proj_loops[0].ast.target, ast.Tuple) and len(proj_loops[0].ast.target.elts) == 2
     if len(proj_loops) != 1:
         # vectorised grouping: the groups must be keyed by the projected outcome itself. A numeric digest of it (positional code,
         # dot product, sum, hash) is injective only on a restricted alphabet / width, so distinct projections can share a group
@@ -404,6 +405,8 @@ def check_subdistribution(ctx):
     # the source probabilities read are the receiver's
     reads = [n for n in ast.walk(loop.ast) if isinstance(n, ast.Subscript) and norm(n.value) == "self.distribution_dict"]
     reads += [n for n in ast.walk(loop.ast) if isinstance(n, ast.Call) and isinstance(n.func, ast.Attribute) and n.func.attr in ("get", "pop") and norm(n.func.value) == "self.distribution_dict"]
+    if items_loop and any(isinstance(n, ast.Name) and n.id == norm(proj_loops[0].ast.target.elts[1]) for n in ast.walk(loop.ast) if not any(n is t for t in ast.walk(proj_loops[0].ast.target))):
+        reads = reads or [proj_loops[0].ast.iter]  # `for key, probability in self.distribution_dict.items()`: the value read is the key's own
     ctx.check(bool(reads), R4, fi.key + ":source", "probabilities are read from self.distribution_dict[key]", "the projection does not read the receiver's probabilities by key", fi)
 
 
